@@ -24,6 +24,10 @@ func ProfileFor(prop, tier string, seed uint64) *Profile {
 	thorough := tier == "thorough"
 	v := int(seed % 8)
 	switch prop {
+	case "C01", "C02", "C08", "C11", "C12", "C16":
+		pf.FatP = 0.06
+	}
+	switch prop {
 	case "C01":
 		pf.TreeEvery = 0
 		switch {
